@@ -473,7 +473,7 @@ def run(ctx):
         stores = [(bb, 'slot') for bb, idx in slot_writes(AB)]
         for bb, t in AB.calls():
             nm = (callee_of(t)[0] or '')
-            if nm.rsplit('::', 1)[-1] in ('insert', 'push', 'entry') and t['args'] and 'pending_fragments' in root_fields(AB, t['args'][0]):
+            if nm.rsplit('::', 1)[-1] in ('insert', 'push', 'or_insert', 'or_insert_with') and t['args'] and 'pending_fragments' in root_fields(AB, t['args'][0]):
                 stores.append((bb, 'buffer'))
         ctx.anchor(len(stores) >= 2, FM + '::add_fragment: slot store and pre-header buffer store')
         rets = set(AB.return_blocks())
